@@ -2,7 +2,8 @@
 
 domain : 1-4 sync groups (slow and fast) on one master, each over 1-8
          terminals with input/output sizes 0..200 (a few large ones so that
-         some groups overflow the frame), read-write flags, FMMU or direct
+         some groups overflow the frame), read-write flags (per device: a
+         terminal may be used by several devices of the group), FMMU or direct
          addressing, and Aerotech-style terminals with declared in_size /
          out_size.
 oracle : the group's frame is parsed by the independent parser: every
@@ -52,6 +53,10 @@ def strategy(tier):
         "rw": st.booleans(),
         "mode": st.sampled_from(["fmmu", "fmmu", "direct", "aerotech"]),
         "decl": st.tuples(st.integers(1, 60), st.integers(1, 60)),
+        # other devices of the group using this terminal: (writes it,
+        # listed before the main device)
+        "also": st.just([]) | st.just([]) | st.lists(
+            st.tuples(st.booleans(), st.booleans()), min_size=1, max_size=2),
     })
     group = st.fixed_dictionaries({
         "kind": st.sampled_from(["slow", "slow", "fast"]),
@@ -64,6 +69,10 @@ def strategy(tier):
         "fit": st.none() | st.none() | st.sampled_from(
             [1497, 1498, 1499, 1500, 1501, 1502, 1503, 1504]),
     }).map(fit_first_group)
+
+
+def rw_of(spec):
+    return bool(spec["rw"] or any(rw for rw, before in spec.get("also", [])))
 
 
 class _Decl:
@@ -124,10 +133,19 @@ def run_case(case):
                 t.pdo_out_off = 0x1800 + 0x10 * ti
                 terms.append((t, spec))
             holder = Holder([(t, s["rw"]) for t, s in terms])
+            # further devices that use some of the terminals too, before or
+            # after the main one: a terminal is written if any device does
+            devices = [holder]
+            for t, s in terms:
+                for also_rw, before in s.get("also", []):
+                    d = Holder([(t, also_rw)])
+                    devices.insert(0 if before else len(devices), d)
+            if len(devices) > 1:
+                classes.append("shared-terminal")
             cls = FastSyncGroup if g["kind"] == "fast" else SyncGroup
             expected_size = 16
             try:
-                sg = cls(ec, [holder])
+                sg = cls(ec, devices)
                 sg.allocate()
             except OverflowError:
                 classes.append("overflow")
@@ -169,7 +187,7 @@ def run_case(case):
                 out_size = t.out_size if aero else spec["out"]
                 if spec["in"] > 0:
                     want[SyncManager.IN] = in_size
-                if spec["rw"] and spec["out"] > 0:
+                if rw_of(spec) and spec["out"] > 0:
                     want[SyncManager.OUT] = out_size
                 assign = sg.pdo_assign.get(t, {})
                 if set(assign) != set(want):
@@ -177,7 +195,7 @@ def run_case(case):
                                 f"{sorted(s.name for s in assign)}, expected "
                                 f"{sorted(s.name for s in want)}")
                 gkey.append((spec["mode"], spec["in"] > 0, spec["out"] > 0,
-                             spec["rw"]))
+                             rw_of(spec)))
                 for sm, size in want.items():
                     start = assign[sm]
                     regions.append((start, start + size, t.name, sm.name))
@@ -258,12 +276,12 @@ def minimal_size(terms):
     for t, spec in terms:
         if spec["mode"] == "aerotech":
             count += (1 if spec["in"] else 0) \
-                + (2 if spec["rw"] and spec["out"] else 0)
+                + (2 if rw_of(spec) and spec["out"] else 0)
         elif spec["mode"] == "direct":
             count += (1 if spec["in"] else 0) \
-                + (1 if spec["rw"] and spec["out"] else 0)
+                + (1 if rw_of(spec) and spec["out"] else 0)
     fm_in = any(s["in"] for t, s in terms if s["mode"] != "direct")
-    fm_out = any(s["rw"] and s["out"] for t, s in terms
+    fm_out = any(rw_of(s) and s["out"] for t, s in terms
                  if s["mode"] == "fmmu")
     if count + fm_in + fm_out > 15:
         return 10**6
@@ -272,17 +290,17 @@ def minimal_size(terms):
             if spec["in"]:
                 fin += t.in_size
                 size += 12 + 1
-            if spec["rw"] and spec["out"]:
+            if rw_of(spec) and spec["out"]:
                 size += 12 + t.out_size + 12 + 1
         elif spec["mode"] == "fmmu":
             if spec["in"]:
                 fin += spec["in"]
-            if spec["rw"] and spec["out"]:
+            if rw_of(spec) and spec["out"]:
                 fout += spec["out"]
         else:
             if spec["in"]:
                 size += 12 + spec["in"]
-            if spec["rw"] and spec["out"]:
+            if rw_of(spec) and spec["out"]:
                 size += 12 + spec["out"]
     if fin:
         size += 12 + fin
@@ -292,7 +310,7 @@ def minimal_size(terms):
 
 
 def fail(case, classes, what):
-    desc = [(g["kind"], [(t["mode"], t["in"], t["out"], t["rw"])
+    desc = [(g["kind"], [(t["mode"], t["in"], t["out"], rw_of(t))
                          for t in g["terms"]]) for g in case["groups"]]
     return dict(ok=False, nontrivial=True, classes=classes,
                 what=f"{what}; groups {desc}")
